@@ -198,6 +198,11 @@ struct attr_path *attr_path_parse(const char *path_str, bool root)
 	if (offset == strlen(path_str))
 	    break;
 
+	if (path->num_comps == ATTR_PATH_COMP_MAX) {
+	    attr_path_destroy(path);
+	    return NULL;
+	}
+
 	int rc = root ?
 	    attr_pcomp_parse_root(path_str, comp) :
 	    attr_pcomp_parse(path_str + offset, comp);
